@@ -245,10 +245,13 @@ pub fn message(g: &str, id: i64, r: &Value) -> Message {
     }
 }
 pub fn message_tok(m: &Message) -> Value {
+    // the stored inner event was built from the message's own fields; it must come back that way
+    let ev_ok = m.event.pubkey == m.pubkey && m.event.created_at == m.created_at && m.event.kind == m.kind && m.event.tags == m.tags;
+    let ev = if ev_ok { m.event.content.clone() } else { format!("?event differs from message: {}", m.event.content) };
     json!({
         "g": gid_tok(&m.mls_group_id), "id": eid_tok(&m.id), "pk": pk_tok(&m.pubkey), "k": m.kind.as_u16() as i64,
         "ca": m.created_at.as_secs() as i64, "pa": m.processed_at.as_secs() as i64, "c": m.content, "t": tags_tok(&m.tags),
-        "ev": m.event.content, "w": eid_tok(&m.wrapper_event_id), "ep": opt_u64_tok(&m.epoch), "st": m.state.as_str(),
+        "ev": ev, "w": eid_tok(&m.wrapper_event_id), "ep": opt_u64_tok(&m.epoch), "st": m.state.as_str(),
     })
 }
 
@@ -313,8 +316,10 @@ pub fn welcome(id: i64, r: &Value) -> Welcome {
     }
 }
 pub fn welcome_tok(w: &Welcome) -> Value {
+    let ev_ok = w.event.pubkey == w.welcomer && w.event.created_at == ts(5) && w.event.kind == Kind::from(444u16) && w.event.tags.is_empty();
+    let ev = if ev_ok { w.event.content.clone() } else { format!("?event differs: {}", w.event.content) };
     json!({
-        "id": eid_tok(&w.id), "ev": w.event.content, "g": gid_tok(&w.mls_group_id), "nid": nid_tok(&w.nostr_group_id),
+        "id": eid_tok(&w.id), "ev": ev, "g": gid_tok(&w.mls_group_id), "nid": nid_tok(&w.nostr_group_id),
         "name": w.group_name, "desc": w.group_description,
         "img": img_tok(&w.group_image_hash, &w.group_image_key, &w.group_image_nonce),
         "admins": pkset_tok(&w.group_admin_pubkeys), "relays": relayset_tok(w.group_relays.iter()),
